@@ -60,6 +60,34 @@ func (c *FnCtx) doCallVals(p *Path, call *ssa.CallCommon, fnv Val, args []Val, p
 		if fc := c.eng.lookupSpec(name); fc != nil {
 			return c.applyContract(p, fc, nil, append([]Val{recv}, args...), resT, name, pos)
 		}
+		// sealed interface (defined in Helios, all implementations in Helios): case split over them
+		if impls := c.eng.implementations(it); len(impls) > 0 {
+			var outs []outcome
+			var tags []string
+			for _, impl := range impls {
+				tags = append(tags, "(= "+recv.T+" "+c.eng.typeTag(impl)+")")
+			}
+			p.assume("(or " + strings.Join(tags, " ") + ")") // closed world: listed as an assumption
+			c.note("sealed interface " + typeKey(it) + ": dynamic type assumed to be one of its " + fmt.Sprint(len(impls)) + " implementations in the Helios module")
+			for i, impl := range impls {
+				m := c.eng.prog.LookupMethod(impl, call.Method.Pkg(), mname)
+				if m == nil {
+					continue
+				}
+				q := p
+				if i < len(impls)-1 {
+					q = p.clone()
+				}
+				q.assume(tags[i])
+				q.trace = append(q.trace, "dyn="+typeKey(impl))
+				rv := Val{K: KPtr, T: recv.IVal, Typ: impl}
+				if kindOf(impl) != KPtr {
+					rv = c.symbolic(q, "recv", impl)
+				}
+				outs = append(outs, c.callFunction(q, m, append([]Val{rv}, args...), nil, pos)...)
+			}
+			return outs
+		}
 		c.defaults[name] = true
 		return c.defaultCall(p, resT, name)
 	}
@@ -262,6 +290,7 @@ func (c *FnCtx) builtin(p *Path, b *ssa.Builtin, call *ssa.CallCommon, args []Va
 		case KSlice:
 			return one(Val{K: KInt, T: a.Len, Typ: intT})
 		case KStr:
+			p.assume("(< (str.len " + a.T + ") 4611686018427387904)")
 			return one(Val{K: KInt, T: "(str.len " + a.T + ")", Typ: intT})
 		case KMap:
 			mt := call.Args[0].Type().Underlying().(*types.Map)
@@ -418,6 +447,7 @@ func (c *FnCtx) special(p *Path, fn *ssa.Function, name string, args []Val) ([]o
 		switch {
 		case strings.HasPrefix(op, "Add"):
 			old := c.load(p, &p.heap, ptr, et)
+			c.loadFacts(p, old, et)
 			nv := Val{K: KInt, T: wrapInt("(+ "+old.T+" "+args[1].T+")", et), Typ: et}
 			c.store(p, &p.heap, ptr, nv, et)
 			return one(nv)
@@ -430,6 +460,7 @@ func (c *FnCtx) special(p *Path, fn *ssa.Function, name string, args []Val) ([]o
 			return none()
 		case strings.HasPrefix(op, "CompareAndSwap"):
 			old := c.load(p, &p.heap, ptr, et)
+			c.loadFacts(p, old, et)
 			ok := "(= " + old.T + " " + args[1].T + ")"
 			nv := Val{K: KInt, T: fmt.Sprintf("(ite %s %s %s)", ok, args[2].T, old.T), Typ: et}
 			c.store(p, &p.heap, ptr, nv, et)
